@@ -66,6 +66,21 @@ CLAIMED = {
              "variation is what the OS / allocator / std give across processes and --pad, not an exhaustive exploration; specKeys == ownKeys is "
              "compared by the driver on every history but not proved.",
     ),
+    "C02": dict(
+        level="proof",
+        text="PROVED core: a Lean model of the Integer32 fast paths of + - * / % ** & | ^ << >> >>> unary minus ++ -- (value/operations.rs and "
+             "its `*_fast` twins, the Inc/Dec opcode handlers) in which Rust's own failure modes — arithmetic overflow, zero divisor, "
+             "MIN / -1, MIN % -1 — are explicit outcomes. Theorems for ALL operands in the i32 range: fast_paths_never_panic, "
+             "int_results_in_range (no silent wrap), add/sub/mul/div/rem/neg_exact (an integer result is the mathematical one and never a "
+             "case where JavaScript requires -0), mul_tdiv_inRange (the product the division path computes cannot overflow), and "
+             "remOld_panics (the remainder as written before the repair fails on (MIN, -1)). Tie: model and engine — the public JsValue "
+             "operators and the VM's opcode handlers — run on every pair of a 42x42 grid of edge values plus random pairs and must agree on "
+             "value and representation. EXPLORED rest (not a proof): byte strings, token-level mutations, token soup and generated programs "
+             "on fresh and reused contexts under catch_unwind with the documented limits; a panic, abort or EnginePanic is a failing input.",
+        technique="Lean 4 proof that the integer fast paths cannot panic, wrap or lose -0 (model with explicit Rust failure modes) + model-vs-engine correspondence over an exhaustive edge grid and random operands; the remainder of the property (lexer, parser, compiler, other handlers, builtins) by catch_unwind exploration of raw, mutated and generated inputs",
+        note="PARTIAL: only the integer operator core is proved; for everything else the check is exploration (fuzzing), which the brief does not "
+             "accept as proof — it can find a failing input, it cannot show absence.",
+    ),
     "C17": dict(
         level="proof",
         text="Lean model of Evaluate / InnerModuleEvaluation for modules without top-level await, as in ECMA-262 16.2.1.5.3: DFS and ancestor "
